@@ -14,5 +14,6 @@ CONSTANTS
   FixD = FALSE
   FixE = FALSE
   FixB = FALSE
+  FixG = FALSE
 INVARIANTS AtMostOncePerDistinctKey OnlyRequested OnlyFromHolder ClosedComplete Cleanup
 
